@@ -22,6 +22,8 @@ type SNode struct {
 	Srv     *anndb.Server
 	Crashed bool
 	Join    []string
+	// DoNotJoin: started with -join=false (the operator attaches it to a cluster later): it must come up empty
+	DoNotJoin bool
 }
 
 // ServerAddr is the address a server with this id announces (":<port>", as net.JoinHostPort("", port)).
@@ -40,7 +42,10 @@ func (n *SNode) dir() string { return fmt.Sprintf("/sim/n%d", n.ID) }
 // Setup runs the real Server.setup() for this node (must run inside an owned thread named
 // "n<id>/..."); used for the first start and for every restart.
 func (n *SNode) Setup() error {
-	cfg := &anndb.Config{RaftNodeId: n.ID, DataDir: n.dir(), Port: n.Port, JoinNodes: n.Join}
+	cfg := &anndb.Config{RaftNodeId: n.ID, DataDir: n.dir(), Port: n.Port, JoinNodes: n.Join, DoNotJoinCluster: n.DoNotJoin}
+	if n.DoNotJoin {
+		cfg.JoinNodes = nil
+	}
 	n.Srv = anndb.NewServer(cfg)
 	if err := n.Srv.VerifSetup(); err != nil {
 		return err
